@@ -4097,7 +4097,12 @@ func (r *Resolver) resolveWithCachedNameservers(ctx context.Context, rs *resolve
 		return nil, errMaxDepth
 	}
 
-	rs.level++
+	// The cached cut may lie more than one label below the zone whose
+	// servers referred to it. checkGlueRR derives the glue bailiwick from
+	// rs.level, so it must be the cut's own depth — exactly what the uncached
+	// path sets (rs.level = nlevel) — or the next referral's glue is judged
+	// against an ancestor of the zone that sent it.
+	rs.level = dns.CountLabel(q.Name)
 	rs.servers = cached.Servers
 	rs.parentDS = cached.DSSet
 	rs.isRoot = false
